@@ -732,10 +732,15 @@ def c16_oracle(case, impl):
         arg = t[3] if len(t) > 3 else "-"
         parts = [] if arg == "-" else [b"" if x in ("e", "") else bytes.fromhex(x) for x in arg.split(",")]
         content = b"".join(parts)
-        total = 8 + len(content)
+        total = (16 if kind == "hb" else 8) + len(content)
         if kind == "ht":
             hb = struct.pack("<HH", le(hb, 0, 2) % 11, le(hb, 2, 2) % 2) + hb[4:]
-        exp = hb[:4] + struct.pack("<I", total) + content
+        if kind == "bi":
+            exp = struct.pack("<I", total) + hb[4:8] + content
+        elif kind == "hb":
+            exp = hb[:8] + struct.pack("<II", total, (-(le(hb, 0, 4) + le(hb, 4, 4) + total)) % (1 << 32)) + content
+        else:
+            exp = hb[:4] + struct.pack("<I", total) + content
         if size != total or got != exp:
             return "expected the header with size %d followed by the content without gaps, got size %d bytes %s" % (total, size, got.hex()[:80])
         if int(d["pl"]) != len(content):
